@@ -160,6 +160,54 @@ def stream_carry_rule(res, fx):
     res.extra['stream_carry_packet_mode_exempt'] = n_exempt
 
 
+def recv_capacity_rule(res, fx, rule='RECV-CAPACITY'):
+    """The stream receiver keeps its scratch buffer only if header + body fit into it: ByteBuffer::TruncateToLength(n) never grows a buffer, so a guard that forgets a term of n
+    lets the gateway go on with a buffer that is too small and the frame is cut short."""
+    from msa import taint as T
+    res.rule(rule, 'MessageIOGateway::DoInputImplementation: TruncateToLength(len) on the receive buffer is guarded by a comparison that accounts for every term of len (header size and body size) '
+                   'against the capacity of that same buffer; otherwise a larger buffer is allocated', floor=1)
+    f = fx.fn1('muscle::MessageIOGateway::DoInputImplementation')
+    eng = T.Engine(fx, max_depth=1)
+    ft = eng.ft(f)
+    n = 0
+    for c in f.walk():
+        if c['k'] != 'CXXMemberCallExpr' or not (c.get('q') or '').endswith('ByteBuffer::TruncateToLength') or c.receiver() is None or not c.args():
+            continue
+        if not ft.et(c.args()[0]):
+            continue           # a length that is not wire-declared (e.g. the byte count a packet read returned) fits by construction
+        n += 1
+        R = T.P_canon(c.receiver())
+        need = ft.vars_in(c.args()[0])
+
+        def closure(e, depth=0):
+            vs = set(ft.vars_in(e))
+            cap = any(x['k'] == 'CXXMemberCallExpr' and (x.get('q') or '').endswith('ByteBuffer::GetNumBytes') and x.receiver() is not None and T.P_canon(x.receiver()) == R for x in e.walk())
+            if depth < 2:
+                for x in e.walk():
+                    if x['k'] == 'DeclRefExpr' and 'd' in x:
+                        d = ft.single_def(x)
+                        if d is not None:
+                            v2, c2 = closure(d, depth + 1)
+                            vs |= v2
+                            cap = cap or c2
+            return vs, cap
+        ok, how = False, None
+        p = P.pos_of(f, c)
+        for (g, truth) in (C.guards_of_block(f, p[0]) if p else []):
+            gn = f.nodes[g]
+            if gn['k'] == 'BinaryOperator' and gn.get('op') in ('<', '<=', '>', '>='):
+                vl, cl = closure(gn['ch'][0])
+                vr, cr = closure(gn['ch'][1])
+                if (cl or cr) and need <= (vl | vr):
+                    ok, how = True, '%s is %s' % (gn.text(50), truth)
+        res.ob(rule, f.where(c), 'TruncateToLength(%s) is guarded against the capacity of %s with all terms accounted for' % (c.args()[0].text(30), c.receiver().text(20)), ok, how=how, function=f.q,
+               key='%s|%s|%s' % (rule, f.q, c.args()[0].text(30)),
+               message='%s: the receive buffer is kept (TruncateToLength(%s)) under a test that does not involve every term of that length and the buffer\'s own GetNumBytes(): for body sizes within one '
+                       'header size of the scratch buffer the frame no longer fits, the read stops short and the stream dies on a length mismatch' % (f.q, c.args()[0].text(30)))
+    if n < 1:
+        raise AnalysisBroken('RECV-CAPACITY: no TruncateToLength on the receive buffer found')
+
+
 def codec_step_rule(res, fx):
     """A zlib stream whose Messages depend on each other advances on both sides with every Message: what Deflate() consumed must be what is sent."""
     res.rule('CODEC-STEP', 'after a successful ZLibCodec::Deflate() in dependent mode (independent flag not literally true) the deflated buffer becomes the outgoing buffer and the frame is tagged with the zlib '
@@ -400,6 +448,7 @@ def run(res, tier):
         v = rets[0]['ch'][0].get('v') if rets and rets[0]['ch'] else None
         res.ob('FRAME', hs[0].where(), 'MessageIOGateway::GetHeaderSize() == 8', v == 8, how=str(v), function=hs[0].q, key='FRAME|GetHeaderSize', message='GetHeaderSize() is %s, the frame is two 32-bit words' % v)
     stream_carry_rule(res, fx)
+    recv_capacity_rule(res, fx)
     codec_step_rule(res, fx)
     template_lru_rule(res, fx)
     res.explanation = ('Static decision of the short-transfer discipline of the stream gateways: %d transfer sites whose buffer argument is base+cursor were found in iogateway/*.cpp and the two C gateways; at each '
